@@ -130,7 +130,16 @@ class Driver:
                         m.status[kk] = 'done'
                         k -= 1
             if self.via_host:
-                ev = self.hci.HCI_Number_Of_Completed_Packets_Event(connection_handles=[h], num_completed_packets=[op[1]])
+                # op[3] (optional): how the report is embedded in one HCI event together with other handles
+                shape = op[3] if len(op) > 3 else 'alone'
+                hs, ns = [h], [op[1]]
+                if shape == 'after_unknown':  # an unknown / just disconnected handle listed first
+                    hs, ns = [U, h], [1, op[1]]
+                elif shape == 'before_unknown':
+                    hs, ns = [h, U], [op[1], 1]
+                elif shape == 'after_sco_like':  # a handle that is no ACL connection and zero packets
+                    hs, ns = [0x0EED, h], [0, op[1]]
+                ev = self.hci.HCI_Number_Of_Completed_Packets_Event(connection_handles=hs, num_completed_packets=ns)
                 self.host.on_packet(bytes(ev))
             else:
                 self.q.on_packets_completed(op[1], h)
@@ -255,6 +264,13 @@ def ops_for(drv, handles):
         f = m.in_flight(h)
         for k in sorted({0, 1, 2, f, f + 1}):
             out.append(('done', k, h))
+    if drv.via_host:
+        # the same truthful report carried in an event that also lists other handles
+        for h in handles:
+            f = m.in_flight(h)
+            if f:
+                for shape in ('after_unknown', 'before_unknown', 'after_sco_like'):
+                    out.append(('done', 1, h, shape))
     for h in handles:
         out.append(('flush', h))
     for h in handles:
